@@ -57,6 +57,10 @@ CLAIMS = {
         technique="def-use agreement of stored centre and radius reference, dominance of id-set and alignment guards over the linkage computation",
         text="Decides that the radius is measured against the centre that is stored, that centres are paired with patches by id or guarded, and that the id-set and alignment guards dominate linkage. Numerical containment is NOT decided.",
     ),
+    "C13": dict(
+        technique="homogeneity typing (degree of every stored / derived quantity in each catalog's weights) on the symbolic store: sums of weights degree one, pair counts and the product of the sums bilinear, normalised counts / estimates / normalised n(z) degree zero",
+        text="Decides ONE clause of the property, the invariance under a positive rescaling of the weights of a catalog, as a property of the expressions: every quantity that must not change is homogeneous of degree zero in each catalog's weights (DESIGN.md §8.14). Rotations, row order, patch relabelling and additivity under catalog splits relate two complete numerical runs and are NOT decided.",
+    ),
     "C15": dict(
         technique="attribute/keyword existence (totality) on config classes, resolved-cosmology provenance, key-protocol of modify/from_dict, signature agreement, immutability effects, endpoint exactness domain",
         text="Decides totality of __eq__/modify/create/from_dict on their documented domain, that the resolved cosmology reaches every bin-edge factory call, create/modify signature agreement, no mutation of self, and exactness of the outer bin edges. Bin-edge numerics are NOT decided.",
@@ -76,7 +80,6 @@ CLAIMS = {
 }
 
 NOT_APPLICABLE = {
-    "C13": "relates two complete pipeline runs numerically (rotations, permutations, weight rescaling, catalogue splits, up to rounding); no clause of it is visible in the shape of the code beyond what C01's unit typing already covers, so static analysis has no sound handle (DESIGN.md §3 C13)",
     "C14": "explicit floating-point error bounds of the spherical primitives at poles / RA wrap / antipodes need a floating-point error analysis (interval or affine arithmetic over libm) that an ast-level analysis cannot provide and that is not installed (DESIGN.md §3 C14)",
 }
 
